@@ -18,14 +18,40 @@ YEAR_RATIO = "ss.time_ratio(unit1=self.t.unit, dt1=self.t.dt, unit2='year', dt2=
 FACTORS = {'1.0', '1', 'self.t.dt', YEAR_RATIO, 'sim.t.dt_year', 'self.t.dt_year'}
 
 
-def _factor_if(fn, test_src, target='factor'):
-    """ find `if <test>: <target> = A  else: <target> = B` and return (A, B) as source text """
+def _factor_if(fn, test_src):
+    """ find `if <test>: X = A  else: X = B` (any local name X) and return (A, B, X) as source text """
     for n in ast.walk(fn):
         if isinstance(n, ast.If) and unparse(n.test) == test_src and len(n.body) == 1 and len(n.orelse) == 1:
             a, b = n.body[0], n.orelse[0]
-            if all(isinstance(x, ast.Assign) and unparse(x.targets[0]) == target for x in (a, b)):
-                return unparse(a.value), unparse(b.value)
-    raise ExtractError(f'{fn.name}: `if {test_src}: {target} = ... else: {target} = ...` not found')
+            if all(isinstance(x, ast.Assign) and len(x.targets) == 1 and isinstance(x.targets[0], ast.Name) for x in (a, b)) \
+                    and a.targets[0].id == b.targets[0].id:
+                return unparse(a.value), unparse(b.value), a.targets[0].id
+    raise ExtractError(f'{fn.name}: `if {test_src}: X = ... else: X = ...` not found')
+
+
+def _mult_leaves(node):
+    """ the factors of a product, order-insensitive """
+    if isinstance(node, ast.BinOp) and isinstance(node.op, ast.Mult):
+        return _mult_leaves(node.left) + _mult_leaves(node.right)
+    return [unparse(node)]
+
+
+def _product_with(fn, var, want, where):
+    """ some assignment in fn is a pure product whose factors are `want` + [var]; the next use is np.clip(.., 0, 1) """
+    for n in ast.walk(fn):
+        if isinstance(n, ast.Assign) and isinstance(n.value, ast.BinOp) and sorted(_mult_leaves(n.value)) == sorted(want + [var]):
+            return unparse(n.targets[0])
+    raise ExtractError(f'{where}: no product of {want + [var]} found')
+
+
+def _clipped(fn, name, where):
+    for n in ast.walk(fn):
+        if isinstance(n, ast.Call) and unparse(n.func) == 'np.clip' and n.args and unparse(n.args[0]).startswith(name):
+            kws = {k.arg: unparse(k.value) for k in n.keywords}
+            rest = [unparse(a) for a in n.args[1:]]
+            if (kws.get('a_min', rest[0] if rest else None), kws.get('a_max', rest[1] if len(rest) > 1 else None)) == ('0', '1'):
+                return
+    raise ExtractError(f'{where}: np.clip({name}, 0, 1) not found')
 
 
 def _assign(fn, target):
@@ -43,24 +69,16 @@ def _check(name, expr):
 def gen_hazard_exprs(src):
     demo = 'starsim/demographics.py'
     gb = src.func(demo, 'get_births', 'Births')
-    b_tp, b_num = _factor_if(gb, 'isinstance(this_birth_rate, ss.TimePar)')
-    prod = _assign(gb, 'scaled_birth_prob')
-    if not prod or prod[0] != 'this_birth_rate * p.rate_units * p.rel_birth * factor':
-        raise ExtractError(f'Births.get_births: product expression changed: {prod}')
-    if len(prod) != 2 or prod[1] != 'np.clip(scaled_birth_prob, a_min=0, a_max=1)':
-        raise ExtractError(f'Births.get_births: clipping changed: {prod}')
+    b_tp, b_num, var = _factor_if(gb, 'isinstance(this_birth_rate, ss.TimePar)')
+    _clipped(gb, _product_with(gb, var, ['this_birth_rate', 'p.rate_units', 'p.rel_birth'], 'Births.get_births'), 'Births.get_births')
     dp = src.func(demo, 'make_death_prob_fn', 'Deaths')
-    d_tp, d_num = _factor_if(dp, 'isinstance(death_rate, ss.TimePar)')
-    prod = _assign(dp, 'death_prob')
-    if prod != ['death_rate * self.pars.rate_units * self.pars.rel_death * factor', 'np.clip(death_prob, a_min=0, a_max=1)']:
-        raise ExtractError(f'Deaths.make_death_prob_fn: product/clip expression changed: {prod}')
+    d_tp, d_num, var = _factor_if(dp, 'isinstance(death_rate, ss.TimePar)')
+    _clipped(dp, _product_with(dp, var, ['death_rate', 'self.pars.rate_units', 'self.pars.rel_death'], 'Deaths.make_death_prob_fn'), 'Deaths.make_death_prob_fn')
     fp = src.func(demo, 'make_fertility_prob_fn', 'Pregnancy')
     tf = _assign(fp, 'time_factor')
     if len(tf) != 2 or tf[1] != '1':
         raise ExtractError(f'Pregnancy.make_fertility_prob_fn: time_factor assignments changed: {tf}')
-    prod = _assign(fp, 'fertility_prob')
-    if not prod or prod[0] != 'fertility_rate * (self.pars.rate_units * self.pars.rel_fertility) * time_factor':
-        raise ExtractError(f'Pregnancy.make_fertility_prob_fn: product expression changed: {prod}')
+    _product_with(fp, 'time_factor', ['fertility_rate', 'self.pars.rate_units', 'self.pars.rel_fertility'], 'Pregnancy.make_fertility_prob_fn')
     up = src.func('starsim/people.py', 'update_post', 'People')
     inc = [unparse(n.value) for n in ast.walk(up) if isinstance(n, ast.AugAssign) and isinstance(n.op, ast.Add)
            and unparse(n.target) == 'self.age[self.alive.uids]']
